@@ -162,7 +162,11 @@ func (s *Schema) ShapeSQL(st Stmt, shape, place string) (string, []interface{}, 
 		if s.Auto {
 			return "", nil, false
 		}
-		sb.WriteString("INSERT INTO " + s.Name + " (id, w1, w2, u1) VALUES ")
+		cols := "id, w1, w2, u1"
+		if s.Zoo {
+			cols += ", z_txt"
+		}
+		sb.WriteString("INSERT INTO " + s.Name + " (" + cols + ") VALUES ")
 		for i, k := range ks {
 			if i > 0 {
 				sb.WriteString(", ")
@@ -175,6 +179,10 @@ func (s *Schema) ShapeSQL(st Stmt, shape, place string) (string, []interface{}, 
 			val(setLit, s.W2(st.W))
 			sb.WriteString(", ")
 			val(setLit, s.U1(st.U))
+			if s.Zoo {
+				sb.WriteString(", ")
+				val(setLit, s.ZTxt(k))
+			}
 			sb.WriteString(")")
 		}
 		if st.Kind == "ups" {
